@@ -2,7 +2,7 @@
    Models: Model/DropIn.v (native_X: CPython's _datetimemodule.c on (wall, fold, tzinfo) ; pd_X: /repo's overrides ; dispatch_model over the
    generated Gen/Classes.v), Spec/Zone.v, Spec/Cal.v, Model/TzConvert.v.  Zones are arbitrary tables (well-formed where stated). *)
 From Coq Require Import ZArith List Bool String.
-From PV Require Import Lib.PyBase Spec.Cal Spec.Zone Spec.NativeDT Spec.TdFloat Proofs.ZoneFacts Model.TzConvert Gen.Classes Model.DropIn Proofs.C11Facts.
+From PV Require Import Lib.PyBase Spec.Cal Spec.Zone Spec.NativeDT Spec.TdFloat Proofs.ZoneFacts Model.TzConvert Gen.Classes Model.DropIn Proofs.C11Facts Proofs.C11Foreign.
 Import ListNotations.
 Open Scope Z_scope.
 
@@ -239,6 +239,31 @@ Theorem sub_float_roundtrip_refuted : let x := pop (mkdtv 179622456367079810 fal
   native_sub (o_val x) (o_val y) = Ok 8737602730852376 /\ pd_sub x y = Ok (TyInterval, 8737602730852377).
 Proof. exact (@sub_float_roundtrip_refuted). Qed.
 Print Assumptions sub_float_roundtrip_refuted.
+
+(* Operands carrying FOREIGN tzinfo kinds (datetime.timezone, zoneinfo.ZoneInfo, dateutil, a user subclass; stream family dt-foreign-x): for two
+   DateTime operands the subtraction depends on the identities of the tzinfo objects, their tables, the walls and the folds only - not on what
+   kind of object the tzinfo is (rekind changes tz_fixed and the pendulum object instance() would attach) ... *)
+Theorem sub_tzinfo_kind_irrelevant : forall x y fx fy px py,
+  o_is_pendulum x = true -> o_is_pendulum y = true ->
+  pd_sub (rekind x fx px) (rekind y fy py) = pd_sub x y.
+Proof. exact (@sub_tzinfo_kind_irrelevant). Qed.
+Print Assumptions sub_tzinfo_kind_irrelevant.
+
+(* ... and neither do the inherited comparisons, equality and hash equality, nor the native subtraction they are compared with. *)
+Theorem binary_native_tzinfo_kind_irrelevant : forall a b fa fb,
+  native_sub (rekind_val a fa) (rekind_val b fb) = native_sub a b /\ native_eq (rekind_val a fa) (rekind_val b fb) = native_eq a b
+  /\ (forall op, native_ord op (rekind_val a fa) (rekind_val b fb) = native_ord op a b) /\ hash_eq (rekind_val a fa) (rekind_val b fb) = hash_eq a b.
+Proof. intros a b fa fb. split; [apply rekind_native_sub|]. split; [apply rekind_native_eq|]. split; [intro op; apply rekind_native_ord|apply rekind_hash_eq]. Qed.
+Print Assumptions binary_native_tzinfo_kind_irrelevant.
+
+(* Non-vacuity, and the case the compiled backend must not reject: Europe/Paris minus a DateTime carrying datetime.timezone.utc (both orders). *)
+Theorem sub_foreign_utc_instance :
+  let x := pop (mkdtv (W_2013_03_31 + 5 * HOUR + 7) false (Some (tz_paris 1))) in
+  let y := mkop (mkdtv (W_2013_03_31 - HOUR) false (Some (mktzi 11 true (mkzone 0 [])))) true 2 in
+  native_sub (o_val x) (o_val y) = Ok (4 * HOUR + 7) /\ pd_sub x y = Ok (TyInterval, 4 * HOUR + 7) /\ pd_sub y x = Ok (TyInterval, - (4 * HOUR + 7))
+  /\ native_eq (o_val x) (o_val y) = false /\ native_gt (o_val x) (o_val y) = Ok true.
+Proof. exact (@sub_foreign_utc_instance). Qed.
+Print Assumptions sub_foreign_utc_instance.
 
 (* date() time() timetz() astimezone() and the subtractions return pendulum types. *)
 Theorem returns_pendulum_types : forall x y tz isp,
